@@ -467,6 +467,12 @@ def gen_scenario(rng, profile):
                     clock = round(clock + item['cutgap'] * len(item['cuts']) + t_sep / 4.0, 6)
             reqs.append(item)
             nreq_total += 1
+            if dgram and tag != 'broadcast' and rng.random() < profile.get('dgram_dup_rate', 0.0):
+                # the network duplicates the datagram: the server receives the request twice (at once, or a
+                # little later) and owes a response to each copy
+                clock = round(clock + rng.choice([0.0, t_sep / 10.0, t_sep]), 6)
+                reqs.append(dict(item, at=clock, dup=True))
+                nreq_total += 1
         conns.append(reqs)
     scn = {'harness': 'srv', 'frontend': kind, 'framing': framing, 'single': single, 'units': units,
            'opts': opts, 'conns': conns, 'cpu_step': rng.choice([2e-6, 1e-5, 5e-5]),
